@@ -313,7 +313,13 @@ class RSocketBase(RSocket, RSocketInternal):
 
     async def _on_connection_closed(self):
         self.stop_all_streams()
-        await self._handler.on_close(self)
+
+        try:
+            await self._handler.on_close(self)
+        except Exception:
+            # a failing close handler must not keep the sender and keepalive tasks alive
+            logger().error('%s: on_close failed', self._log_identifier(), exc_info=True)
+
         await self._stop_tasks()
 
     @abc.abstractmethod
